@@ -3064,14 +3064,14 @@ macro_rules! mat_impl_mat4 {
             }
         }
 
-        /// A `Mat4` can be obtained from a `Transform`, by rotating, then scaling, then
-        /// translating.
+        /// A `Mat4` can be obtained from a `Transform`, by scaling, then rotating, then
+        /// translating (i.e `p -> position + orientation * (scale * p)`).
         impl<T> From<Transform<T,T,T>> for Mat4<T>
             where T: Real + MulAdd<T,T,Output=T>
         {
             fn from(xform: Transform<T,T,T>) -> Self {
                 let Transform { position, orientation, scale } = xform;
-                Mat4::from(orientation).scaled_3d(scale).translated_3d(position)
+                (Mat4::from(orientation) * Mat4::scaling_3d(scale)).translated_3d(position)
             }
         }
 
